@@ -115,7 +115,7 @@ def handle (op : String) (args : List String) : String :=
     match hexToBytes? hv, hexToBytes? hr with
     | some v, some r =>
       " ".intercalate [bytesToHex (writeString v), showOptBytes1 (Spec.decodeLiteral .luau true r),
-        showOptBytes1 (Spec.decodeLiteral .lua51 true r), toString (straddles v), toString (lua51Safe v),
+        showOptBytes1 (Spec.decodeLiteral .lua51 true r), toString (lua51Safe v),
         toString (usesLongBracket v)]
     | _, _ => "bad-args"
   -- combined for interpolated segments: the real output is decoded followed by each terminator
@@ -166,10 +166,6 @@ def handle (op : String) (args : List String) : String :=
   | "lua51safe", [h] =>
     match hexToBytes? h with
     | some v => toString (lua51Safe v)
-    | none => "bad-args"
-  | "straddles", [h] =>
-    match hexToBytes? h with
-    | some v => toString (straddles v)
     | none => "bad-args"
   | "longform", [h] =>
     match hexToBytes? h with
